@@ -6,8 +6,10 @@
     specification's laws on each (both definitions agree, probabilities sum to 1, counts total the shots, all_outcomes only adds zero
     entries, variance identity and sign).
 (R) spec -> code: for every enumerated array and every measurement process of the list TLC prints the expected result; the driver
-    builds the real measurement process (qp.probs / counts / sample / expval / var on wire subsets and orders, eigenvalue tables,
-    diagonal observables, projectors, mid-circuit measurement values and lists of them), calls mp.process_samples on the array and
+    builds the real measurement process (qp.probs / counts / sample / expval / var on wire subsets and orders, eigenvalue tables
+    - seeded ones and EVERY table over {-1, 0, 1} on one wire, sign tables on two / three wires, i.e. the spectra next to the ones an
+    implementation may special-case -, diagonal observables with coefficients of either sign, Hermitian matrices (diagonal and not)
+    whose spectrum TLC sorts, projectors, mid-circuit measurement values and lists of them), calls mp.process_samples on the array and
     mp.process_counts on the dictionary of counts TLC printed, and compares.
 (T) code -> spec: seeded larger arrays (more shots and wires, batch dimension, shot_range, bin_size) are run through the real
     classes; each returned value is recorded as exact data and Trace_FromSamples.tla recomputes it from the array.
@@ -30,6 +32,7 @@ PID = "C30"
 LABELS = [3, 0, "a", 7, 1, "b"]          # wire label at position 1, 2, ... of the wire order (deliberately not 0, 1, 2, ...)
 ATOL = 1e-10
 POOL = [Fraction(x) for x in ("3", "1", "2", "5", "-2", "1/2", "0", "-7/4", "-1", "4", "3/2", "-5/2", "7", "1/4", "-3", "6")]
+SIGN2 = [list(t) for t in itertools.product((1, -1), repeat=4) if len(set(t)) == 2 and list(t) not in ([1, -1, -1, 1], [-1, 1, 1, -1])]
 CLS = {"expval": ExpectationMP, "var": VarianceMP, "counts": CountsMP, "sample": SampleMP}
 
 
@@ -79,9 +82,41 @@ def mp_list(nw, rng, max_sels=None):
     for i, sel in enumerate(sels):
         ev = table(rng, 2 ** len(sel), i % 2 == 1)
         out += value_kinds(i, lambda kind, ao: R(kind, "eig", sel, ev=ev, ao=ao))
+    # directed eigenvalue tables: every table over {-1, 0, 1} on one wire (among them <<1, -1>>, the spectrum of a Pauli operator, its
+    # reversal <<-1, 1>> and the constant tables), sign tables on more wires (parity, its negation, seeded ones)
+    n = 0
+    for sel in sels:
+        if len(sel) == 1:
+            tabs = [list(t) for t in itertools.product((1, -1, 0), repeat=2)]
+        elif len(sel) == 2:
+            tabs = [[1, -1, -1, 1], [-1, 1, 1, -1]] + rng.sample(SIGN2, 2)
+        else:
+            tabs = [[rng.choice((1, -1)) for _ in range(2 ** len(sel) - 2)] + [1, -1]]
+        for ev in tabs:
+            out += value_kinds(n, lambda kind, ao: R(kind, "eig", sel, ev=ev, ao=ao))
+            n += 1
+    # Hermitian matrices given by their spectrum: the table is the spectrum in ascending order whatever the matrix looks like
+    herm = []
+    for i, sel in enumerate(sels):
+        if len(sel) == 1:
+            a, b = sorted(rng.sample(POOL, 2))
+            herm += [(sel, [-1, 1], "x"), (sel, [1, -1], "diag"), (sel, [-1, 1], "y" if i % 2 else "diag"), (sel, [b, a], "diag"),
+                     (sel, [a, b], "rot"), (sel, [1, 0], "x"), (sel, [a, a], "diag")]
+        elif len(sel) == 2:
+            herm += [(sel, rng.sample(POOL, 4), "rot"), (sel, rng.choice(SIGN2), "diag"), (sel, table(rng, 4, True), "diag"),
+                     (sel, [-1, 1, 3, 5] if i % 2 else [1, -1, 1, -1], "blk")]
+        elif i % 2 == 0:
+            herm += [(sel, rng.sample(POOL, 8), "diag")]
+    for i, (sel, ev, py) in enumerate(herm):
+        # repeated eigenvalues of a non-diagonal matrix are computed numerically and may differ in the last bit: no counts keyed by them
+        out += [r for r in value_kinds(i, lambda kind, ao: R(kind, "herm", sel, ev=ev, ao=ao, py=py))
+                if r["kind"] != "counts" or py == "diag" or len(set(ev)) == len(ev)]
     # diagonal observables: linear combinations of Pauli-Z words on disjoint supports
     wires = list(range(1, nw + 1))
     obs = [([(1, [w])], "arith") for w in wires]
+    obs += [([(-1, [w])], ("arith", "neg", "lc", "ham")[(w + nw) % 4]) for w in wires]
+    if nw >= 2:
+        obs += [([(-1, rng.sample(wires, 2))], "neg"), ([(-1, [wires[0]]), (-1, [wires[-1]])], "arith")]
     for k in range(2, nw + 1):
         for c in itertools.combinations(wires, k):
             ws = list(c)
@@ -131,8 +166,34 @@ def _obs(rec, labels):
         return qp.ops.LinearCombination([float(c) for c, _ in terms], [_word(ws, labels) for _, ws in terms])
     if rec["py"] == "ham":
         return qp.Hamiltonian([float(c) for c, _ in terms], [_word(ws, labels) for _, ws in terms])
+    if rec["py"] == "neg":
+        return -_word(terms[0][1], labels)
     parts = [_word(ws, labels) if c == 1 else qp.s_prod(float(c), _word(ws, labels)) for c, ws in terms]
     return parts[0] if len(parts) == 1 else qp.sum(*parts)
+
+
+ROT = np.array([[3.0, -4.0], [4.0, 3.0]]) / 5            # an exactly orthogonal matrix up to rounding of 3/5, 4/5
+
+
+def herm_matrix(rec):
+    """a Hermitian matrix whose spectrum is the multiset rec['ev'] (the ORDER in which ev lists it is only used to lay out the matrix)"""
+    ev = [n / d for n, d in rec["ev"]]
+    k, py = len(rec["sel"]), rec["py"]
+    D = np.diag(ev)
+    if py == "diag":
+        return D
+    if py in ("x", "y"):                                  # mean * I + half-difference * X (resp. Y): eigenvalues ev[0], ev[1]
+        P = np.array([[0, 1], [1, 0]]) if py == "x" else np.array([[0, -1j], [1j, 0]])
+        return (ev[0] + ev[1]) / 2 * np.eye(2) + (ev[1] - ev[0]) / 2 * P
+    if py == "rot":
+        U = ROT if k == 1 else np.kron(ROT, np.eye(2 ** (k - 1)))[:, np.random.RandomState(7).permutation(2 ** k)]
+        return U @ D @ U.T
+    if py == "blk":                                       # |0><0| (x) A + |1><1| (x) B, A / B with eigenvalues ev[0], ev[1] / ev[2], ev[3]
+        X = np.array([[0.0, 1.0], [1.0, 0.0]])
+        A = (ev[0] + ev[1]) / 2 * np.eye(2) + (ev[1] - ev[0]) / 2 * X
+        B = (ev[2] + ev[3]) / 2 * np.eye(2) + (ev[3] - ev[2]) / 2 * X
+        return np.kron(np.diag([1.0, 0.0]), A) + np.kron(np.diag([0.0, 1.0]), B)
+    raise lib.MachineryError(f"unknown Hermitian form {py}")
 
 
 def _mv(rec, labels):
@@ -183,7 +244,10 @@ def build(rec, labels):
             if kind == "probs":
                 return qp.probs(op=op)
             return qp.counts(op, all_outcomes=rec["ao"]) if kind == "counts" else qp.sample(op)
-        op = qp.Projector(rec["st"], wires=W) if src == "proj" else (_obs(rec, labels) if src == "obs" else _mv(rec, labels))
+        if src == "herm":
+            op = qp.Hermitian(herm_matrix(rec), wires=W)
+        else:
+            op = qp.Projector(rec["st"], wires=W) if src == "proj" else (_obs(rec, labels) if src == "obs" else _mv(rec, labels))
         if kind == "counts":
             return qp.counts(op, all_outcomes=rec["ao"])
         return {"expval": qp.expval, "var": qp.var, "sample": qp.sample}[kind](op)
@@ -194,6 +258,7 @@ def describe(rec, labels):
     what = {"wires": f"wires={W or 'all'}", "mvlist": f"mid-circuit measurements on {W} ({rec['py']})",
             "eig": f"eigvals={[str(Fraction(*q)) for q in rec['ev']]}, wires={W}",
             "proj": f"Projector({rec['st']}, wires={W})",
+            "herm": f"Hermitian({rec['py']} matrix with spectrum {[str(Fraction(*q)) for q in rec['ev']]}, wires={W})",
             "obs": "observable " + " + ".join(f"{Fraction(*t['c'])}*Z{[labels[w - 1] for w in t['ws']]}" for t in rec["terms"]) + f" ({rec['py']})",
             "mv": "measurement value " + " + ".join(f"{Fraction(*t['c'])}*m{[labels[w - 1] for w in t['ws']]}" for t in rec["terms"])
                   + f" ({rec['py']})"}[rec["src"]]
@@ -208,6 +273,8 @@ def vkey(call, rec, extra=""):
         k += ":" + rec["py"]
     if rec["src"] == "eig" and rec["kind"] == "counts" and len({tuple(q) for q in rec["ev"]}) < len(rec["ev"]):
         k += ":repeated-eigenvalues"
+    if rec["src"] in ("eig", "herm") and {abs(Fraction(*q)) for q in rec["ev"]} == {1}:
+        k += ":pm1-eigenvalues"
     if rec["ao"]:
         k += ":all_outcomes"
     return k + (":" + extra if extra else "")
@@ -280,6 +347,18 @@ def compare(rec, out, exp, nw, via="samples"):
     if via == "counts":
         a, e = np.sort(a), np.sort(e)
     return None if np.allclose(a, e, rtol=0, atol=ATOL) else f"samples {a.tolist()} instead of {e.tolist()}"
+
+
+def one_wire_table(rec):
+    """the eigenvalue table <<value of bit 0, value of bit 1>> of a value measurement on ONE wire, else None"""
+    if rec["src"] == "eig" and len(rec["ev"]) == 2:
+        return tuple(Fraction(*q) for q in rec["ev"])
+    if rec["src"] == "herm" and len(rec["ev"]) == 2:
+        return tuple(sorted(Fraction(*q) for q in rec["ev"]))
+    if rec["src"] == "obs" and len(rec["terms"]) == 1 and len(rec["terms"][0]["ws"]) == 1:
+        c = Fraction(*rec["terms"][0]["c"])
+        return (c, -c)
+    return None
 
 
 def nontrivial(rec, exp):
@@ -364,7 +443,7 @@ def canon(rec, out, k, shots):
 def rand_mp(rng, nw):
     """a random measurement process on nw wires (same families as mp_list, random wire selections and tables)"""
     wires = list(range(1, nw + 1))
-    fam = rng.choice(["wires", "wires", "eig", "eig", "obs", "proj", "mv", "mvlist"])
+    fam = rng.choice(["wires", "wires", "eig", "eig", "obs", "proj", "mv", "mvlist", "herm", "pm1"])
     k = rng.randint(1, min(nw, 3))
     sel = rng.sample(wires, k)
     ao = rng.random() < 0.5
@@ -380,6 +459,16 @@ def rand_mp(rng, nw):
     ao = ao and kind == "counts"
     if fam == "eig":
         return R(kind, "eig", sel, ev=table(rng, 2 ** k, rng.random() < 0.5), ao=ao)
+    if fam == "pm1":          # a sign table (one wire: <<1, -1>> or <<-1, 1>>), given as eigvals or as the spectrum of a diagonal matrix
+        ev = [rng.choice((1, -1)) for _ in range(2 ** k - 2)] + rng.choice(([1, -1], [-1, 1]))
+        rng.shuffle(ev)
+        return R(kind, "eig", sel, ev=ev, ao=ao) if rng.random() < 0.6 else R(kind, "herm", sel, ev=ev, ao=ao, py="diag")
+    if fam == "herm":
+        k = min(k, 2)
+        sel = sel[:k]
+        py = rng.choice(["diag", "rot", "x", "y"] if k == 1 else ["diag", "rot", "blk"])
+        ev = table(rng, 2 ** k, True) if py == "diag" and rng.random() < 0.4 else rng.sample(POOL, 2 ** k)
+        return R(kind, "herm", sel, ev=ev, ao=ao, py=py)
     if fam == "proj":
         return R(kind if kind != "sample" else "expval", "proj", sel, st=[rng.randint(0, 1) for _ in sel], ao=ao)
     if fam == "obs":
@@ -387,7 +476,7 @@ def rand_mp(rng, nw):
         terms, i = [], 0
         while i < nw and len(terms) < 3:
             n = rng.randint(1, min(2, nw - i))
-            terms.append((rng.choice([1, 1, 2, -3, Fraction(1, 2), Fraction(-7, 4)]), perm[i:i + n]))
+            terms.append((rng.choice([1, 1, -1, -1, 2, -3, Fraction(1, 2), Fraction(-7, 4)]), perm[i:i + n]))
             i += n
         py = rng.choice(["arith", "lc", "ham"]) if len(terms) > 1 or terms[0][0] != 1 else "arith"
         return R(kind, "obs", terms=terms, ao=ao, py=py)
@@ -544,6 +633,7 @@ def run(tier, seed):
 
     by_kind, by_src = {}, {}
     evals = n_counts_calls = zero_entries = permuted = 0
+    pm1 = {"pauli <<1,-1>>": {}, "reversed <<-1,1>>": {}}     # class of one-wire table -> source -> pairs with two different outcomes
     nontriv, samples = set(), []
     controls = []
     for case in g.json_lines:
@@ -561,6 +651,10 @@ def run(tier, seed):
             nt = nontrivial(rec, exp)
             if nt:
                 nontriv.add((nw, len(X), code, k))
+                t1 = one_wire_table(rec)
+                if t1 in ((1, -1), (-1, 1)):
+                    c = pm1["pauli <<1,-1>>" if t1 == (1, -1) else "reversed <<-1,1>>"]
+                    c[rec["src"]] = c.get(rec["src"], 0) + 1
             if rec["kind"] == "counts":
                 zero_entries += sum(1 for p in exp if p[-1] == 0)
             if len(rec["sel"]) > 1 and rec["sel"] != sorted(rec["sel"]):
@@ -595,6 +689,10 @@ def run(tier, seed):
                     report(vkey("process_counts", rec), f"{describe(rec, LABELS)}.process_counts({d}, wire_order={order}): {why}", rp)
     if evals < 1000:
         raise lib.MachineryError("vacuous replay")
+    for cls, c in pm1.items():
+        need = ("eig", "obs") if cls.startswith("pauli") else ("eig", "obs", "herm")
+        if any(c.get(src, 0) < 20 for src in need):
+            raise lib.MachineryError(f"vacuous: one-wire tables of class {cls} exercised only {c}")
 
     t_replay = time.time() - t_start - t_gen
     # negative controls of the comparator: a corrupted expected value must be rejected
@@ -709,7 +807,7 @@ def run(tier, seed):
            "measurement_processes_per_wire_count": [len(x) for x in mps],
            "process_samples_calls": evals, "process_counts_calls": n_counts_calls,
            "by_kind": by_kind, "by_source": by_src, "all_outcomes_zero_entries_checked": zero_entries,
-           "pairs_with_permuted_wire_order": permuted,
+           "pairs_with_permuted_wire_order": permuted, "one_wire_sign_tables_nontrivial_pairs": pm1,
            "trace": {"cases": n_cases, "records": n_real, "accepted": t_ok, "batched_cases": t_batched, "binned_cases": t_binned,
                      "shot_range_cases": t_ranged, "process_counts_cases": t_via_counts},
            "model_drift": t_strided,
